@@ -8,6 +8,7 @@ package netsim
 import (
 	"net"
 	"sync"
+	"sync/atomic"
 	"time"
 )
 
@@ -39,7 +40,11 @@ type Conn struct {
 	CloseErr  error
 	CloseGate chan struct{} // when set, every Close waits for it (to hold a client's Close open)
 	OnClose   func()        // called on entry of every Close, before the gate
+	active    atomic.Int32  // ReadFrom calls in progress
 }
+
+// ActiveReads reports how many ReadFrom calls have not returned yet: a reader that stopped is one whose read returned.
+func (c *Conn) ActiveReads() int { return int(c.active.Load()) }
 
 // New creates a connection whose inbox can hold cap injected datagrams.
 func New(capacity int) *Conn {
@@ -55,6 +60,8 @@ func (c *Conn) Deliver(b []byte, from net.Addr) {
 func (c *Conn) Fail(err error) { c.inbox <- Datagram{Err: err} }
 
 func (c *Conn) ReadFrom(p []byte) (int, net.Addr, error) {
+	c.active.Add(1)
+	defer c.active.Add(-1)
 	select {
 	case <-c.closed:
 		return 0, nil, net.ErrClosed
